@@ -326,12 +326,12 @@ let run_srv toks =
                     let nb = int_of_n (nblocks_of o.wo_blk content) in
                     (* the client acknowledges a window when the first copy of its last block arrives *)
                     let fb = (min (int_of_n o.wo_ws) nb - 1) * int_of_n rep + 1 in
-                    emit (Printf.sprintf "dl=%s/%d/%d/%d/%s/%s" (fp_text got) ndata maxpay fb (dec_of_n rep)
+                    emit (Printf.sprintf "dl=%s/%d/%d/%d/%s/x0/%s" (fp_text got) ndata maxpay fb (dec_of_n rep)
                             (match ph with SDone OutOk -> "done" | _ -> "incomplete"))
                   end
                 | _ ->
                   (* a directory: the worker fails on its first read; nothing is ever sent *)
-                  if first <> None && cont = "D" then emit "dl=0:0000000000000000/0/0/0/0/incomplete");
+                  if first <> None && cont = "D" then emit "dl=0:0000000000000000/0/0/0/0/x0/incomplete");
                st := worker_ended !st src
              | Some (ASpawnRecv (path, o, rep, clean)) ->
                let created = create_file !root path [] in
@@ -372,6 +372,239 @@ let run_srv toks =
     emit ("tree=" ^ snapshot_tree !root);
     String.concat " " (List.rev !out)
   | _ -> failwith "bad srv case"
+
+(* ---- SRV monitors: property-level checks on the implementation's trace ---- *)
+let starts_with s p = String.length s >= String.length p && String.sub s 0 (String.length p) = p
+let ends_with s p = String.length s >= String.length p && String.sub s (String.length s - String.length p) (String.length p) = p
+
+(* split the flat token list of an srv result into per-step records *)
+type steprec = { skind : char; sdg : n list; scont : string; sreply : string; sxfer : string }
+
+let srv_steps (steps : string) (impl : string) : steprec list * string =
+  let toks = ref (words impl) in
+  let next () = match !toks with t :: r -> toks := r; t | [] -> "" in
+  let peek () = match !toks with t :: _ -> t | [] -> "" in
+  let recs = List.filter_map (fun step ->
+    if step = "-" || step.[0] = 'w' then None else begin
+      let fields = String.split_on_char ':' (String.sub step 3 (String.length step - 3)) in
+      let dg = match fields with f :: _ -> if f = "-" then [] else bytes_of_hex f | [] -> [] in
+      let cont = match fields with _ :: x :: _ -> x | _ -> "-" in
+      let r = next () in
+      let x = if starts_with (peek ()) "dl=" || starts_with (peek ()) "ul=" then next () else "" in
+      Some { skind = step.[0]; sdg = dg; scont = cont; sreply = r; sxfer = x }
+    end) (String.split_on_char ';' steps) in
+  (recs, peek ())
+
+let tree_entries (t : string) : (string * string) list =
+  (* "tree=a=fp,b/,..." -> [(relpath, fp | "/")] *)
+  let t = if starts_with t "tree=" then String.sub t 5 (String.length t - 5) else t in
+  if t = "-" || t = "" then [] else
+  List.map (fun e -> if ends_with e "/" then (string_of_bytes (bytes_of_hex (String.sub e 0 (String.length e - 1))), "/")
+             else match String.index_opt e '=' with
+               | Some i -> (string_of_bytes (bytes_of_hex (String.sub e 0 i)), String.sub e (i + 1) (String.length e - i - 1))
+               | None -> (e, "?")) (String.split_on_char ',' t)
+
+let under dir (p, _) = p = dir || starts_with p (dir ^ "/")
+
+let reply_hex r = (* "reply=<hex>@L" -> (hex, origin) *)
+  let r = if starts_with r "reply=" then String.sub r 6 (String.length r - 6) else r in
+  match String.index_opt r '@' with Some i -> (String.sub r 0 i, String.sub r (i + 1) (String.length r - i - 1)) | None -> (r, "")
+
+let is_refusal h = starts_with h "0005"
+
+let mon_srv prop case impl =
+  match words case with
+  | [_; flags; dup; tree; steps] ->
+    if impl = "<crash>" || impl = "<missing>" || impl = "" then "fail:no-result-(process-died?)" else begin
+    let distinct = has_flag flags 'd' in
+    let sdir_rel = if distinct then "snd" else "srv" and rdir_rel = if distinct then "rcv" else "srv" in
+    let rootp = bytes_of_string "/R" in
+    let sdir = rootp @ bytes_of_string ("/" ^ sdir_rel) and rdir = rootp @ bytes_of_string ("/" ^ rdir_rel) in
+    let init = build_tree tree in
+    let init_entries = tree_entries (snapshot_tree init) in
+    let (recs, final_tok) = srv_steps steps impl in
+    let final_entries = tree_entries final_tok in
+    let rep = int_of_string dup + 1 in
+    let fail = ref [] in
+    let bad m = fail := m :: !fail in
+    (* datagrams longer than the listener's smallest receive buffer may be cut before decoding: not judged *)
+    let decoded r = if List.length r.sdg > 516 then None else match decode r.sdg with Ok p -> Some p | _ -> None in
+    let uploads = List.filter_map (fun r -> if String.length r.scont > 1 && r.scont.[0] = 'U' then Some (fp_text (spec_content (String.sub r.scont 1 (String.length r.scont - 1)))) else None) recs in
+    (* a completed (acknowledged) upload leaves exactly the uploaded bytes at its path *)
+    let check_uploads () =
+      let last_upload = Hashtbl.create 7 in
+      List.iter (fun r ->
+        match decoded r with
+        | Some (Wrq (name, _, _)) when r.sxfer = "ul=acked" ->
+          let segs = kernel_segs (join rdir (convert_file_path name)) in
+          (match segs with
+           | _ :: rel -> Hashtbl.replace last_upload (String.concat "/" (List.map string_of_bytes rel))
+                           (fp_text (spec_content (String.sub r.scont 1 (String.length r.scont - 1))))
+           | [] -> ())
+        | _ -> ()) recs;
+      Hashtbl.iter (fun rel f -> match List.assoc_opt rel final_entries with
+        | Some g when g = f -> ()
+        | _ -> bad "completed-upload-is-not-exactly-the-uploaded-content") last_upload;
+      (* an upload the server accepted and that a loss-free conformant client drove to its end is acknowledged *)
+      List.iter (fun r ->
+        if starts_with r.sxfer "ul=noack" && not (has_flag flags 's') then ()
+        else if starts_with r.sxfer "ul=error" then
+          (match decoded r with
+           | Some (Wrq (name, _, _)) ->
+             let path = join rdir (convert_file_path name) in
+             (* only a target that cannot be created explains an ERROR in the middle of an accepted upload *)
+             (match create_file init path [] with
+              | Some _ -> bad "accepted-upload-aborted-by-the-server"
+              | None -> ())
+           | _ -> ())) recs in
+    (match prop with
+     | "C03" ->
+       (* nothing outside the receive directory changes; only send-directory files (or this run's uploads) are ever served *)
+       let keep l = List.filter (fun e -> not (under rdir_rel e)) l in
+       if keep init_entries <> keep final_entries then bad "filesystem-changed-outside-the-receive-directory";
+       let servable = "0:0000000000000000" :: uploads @ List.filter_map (fun (p, f) -> if under sdir_rel (p, f) && f <> "/" then Some f else None) init_entries in
+       List.iter (fun r ->
+         if starts_with r.sxfer "dl=" && r.sxfer <> "dl=-" && not (starts_with r.sxfer "dl=error") then begin
+           let body = String.sub r.sxfer 3 (String.length r.sxfer - 3) in
+           let fpr = List.hd (String.split_on_char '/' body) in
+           if not (List.mem fpr servable) then bad "served-bytes-that-are-no-file-of-the-send-directory"
+         end;
+         (* a name that escapes lexically must be refused *)
+         (match decoded r with
+          | Some (Rrq (name, _, _)) ->
+            if not (validate_file_path (join sdir (convert_file_path name)) sdir) && not (is_refusal (fst (reply_hex r.sreply))) && r.sreply <> "reply=none"
+            then bad "escaping-read-not-refused"
+          | Some (Wrq (name, _, _)) ->
+            if not (validate_file_path (join rdir (convert_file_path name)) rdir) && not (is_refusal (fst (reply_hex r.sreply))) && r.sreply <> "reply=none"
+            then bad "escaping-write-not-refused"
+          | _ -> ())) recs
+     | "C05" ->
+       if List.exists (fun t -> t = "LISTENER-PANIC" || t = "PROCESS-ABORT") (words impl) then bad "listener-died";
+       (match List.rev recs with
+        | last :: _ when last.skind = 'q' ->
+          let probe = fp_text (file_of_spec "P600:7") in
+          let exp_mult = string_of_int rep in
+          (match String.split_on_char '/' last.sxfer with
+           | [f; _; _; _; m; _; d] when f = "dl=" ^ probe && d = "done" && m = exp_mult -> ()
+           | _ -> bad "probe-request-not-served-after-the-history")
+        | _ -> ())
+     | "C06" ->
+       let ro = has_flag flags 'r' and over = has_flag flags 'o' in
+       let touched = ref false in
+       List.iteri (fun i r ->
+         let (h, origin) = reply_hex r.sreply in
+         if is_refusal h then begin
+           if origin <> "L" then bad "refusal-not-from-the-listening-port";
+           if r.sxfer <> "" && r.sxfer <> "dl=-" && r.sxfer <> "ul=-" then bad "transfer-after-refusal"
+         end;
+         (match decoded r with
+          | Some (Wrq (name, _, _)) ->
+            if ro then (if not (starts_with h "00050002") then bad "write-request-not-refused-with-error-2-in-read-only-mode")
+            else begin
+              let path = join rdir (convert_file_path name) in
+              if not !touched && validate_file_path path rdir && not over then
+                (match kind_of init path with
+                 | FkMissing -> ()
+                 | _ -> if not (starts_with h "00050006") then bad "existing-file-not-refused-with-error-6");
+              if h <> "none" && not (is_refusal h) then touched := true
+            end
+          | Some (Rrq (name, _, _)) ->
+            let path = join sdir (convert_file_path name) in
+            if not !touched && validate_file_path path sdir then
+              (match kind_of init path with
+               | FkMissing -> if not (starts_with h "00050001") then bad "missing-file-not-refused-with-error-1"
+               | _ -> ())
+          | _ -> ());
+         ignore i) recs;
+       if ro && List.filter (under rdir_rel) init_entries <> List.filter (under rdir_rel) final_entries then bad "read-only-server-changed-the-disk";
+       check_uploads ()
+     | "C02" | "C14" ->
+       check_uploads ()
+     | "C99" ->
+       let last_upload = Hashtbl.create 7 in
+       List.iter (fun r ->
+         match decoded r with
+         | Some (Wrq (name, _, _)) when r.sxfer = "ul=acked" ->
+           let segs = kernel_segs (join rdir (convert_file_path name)) in
+           (match segs with
+            | _ :: rel -> Hashtbl.replace last_upload (String.concat "/" (List.map string_of_bytes rel))
+                            (fp_text (spec_content (String.sub r.scont 1 (String.length r.scont - 1))))
+            | [] -> ())
+         | _ -> ()) recs;
+       Hashtbl.iter (fun rel f -> match List.assoc_opt rel final_entries with
+         | Some g when g = f -> ()
+         | _ -> bad "completed-upload-is-not-exactly-the-uploaded-content") last_upload
+     | "C09" ->
+       List.iteri (fun i r ->
+         let (h, _) = reply_hex r.sreply in
+         match decoded r with
+         | Some (Rrq (name, _, ros)) | Some (Wrq (name, _, ros)) ->
+           let is_read = (match decoded r with Some (Rrq _) -> true | _ -> false) in
+           let is_oack = starts_with h "0006" in
+           if i = 0 && h = "none" && not (List.exists unhonourable ros) then begin
+             if is_read then
+               (let path = join sdir (convert_file_path name) in
+                match (if validate_file_path path sdir then kind_of init path else FkMissing) with
+                | FkFile _ -> bad "valid-request-with-honourable-options-not-answered"
+                | _ -> ())
+             else if not (has_flag flags 'r') then
+               (let path = join rdir (convert_file_path name) in
+                if validate_file_path path rdir then
+                  match kind_of init path with
+                  | FkMissing -> bad "valid-request-with-honourable-options-not-answered"
+                  | _ -> ())
+           end;
+           if is_oack && ros = [] then bad "oack-without-a-recognised-option";
+           if is_oack && List.exists unhonourable ros then bad "unhonourable-value-acknowledged";
+           if (starts_with h "0003" || starts_with h "0004") && ros <> [] then bad "recognised-options-not-acknowledged";
+           if is_oack then begin
+             match decode (bytes_of_hex h) with
+             | Ok (Oack os') ->
+               if List.map (fun o -> o.o_type) os' <> List.map (fun o -> o.o_type) ros then bad "oack-lists-other-options-than-requested"
+               else List.iter2 (fun o o' ->
+                 match o.o_type with
+                 | OTSize ->
+                   if is_read then begin
+                     if i = 0 then (match kind_of init (join sdir (convert_file_path name)) with
+                       | FkFile sz -> if o'.o_val <> sz then bad "tsize-is-not-the-file-size"
+                       | _ -> ())
+                   end else if o'.o_val <> o.o_val then bad "tsize-of-a-write-request-not-echoed"
+                 | _ -> if o'.o_val <> o.o_val then bad "acknowledged-value-differs-from-the-requested-one") ros os';
+               (* the transfer uses exactly the acknowledged values *)
+               if starts_with r.sxfer "dl=" && ends_with r.sxfer "/done" then begin
+                 let blk = int_of_n (List.fold_left (fun a o -> if o.o_type = OBlkSize then o.o_val else a) (n_of_int 512) os') in
+                 let ws = int_of_n (List.fold_left (fun a o -> if o.o_type = OWindowSize then o.o_val else a) (n_of_int 1) os') in
+                 (match String.split_on_char '/' (String.sub r.sxfer 3 (String.length r.sxfer - 3)) with
+                  | [fpr; _; maxpay; fb; _; _; _] ->
+                    let len = int_of_string (List.hd (String.split_on_char ':' fpr)) in
+                    let nb = len / blk + 1 in
+                    if int_of_string maxpay <> min blk len then bad "block-length-differs-from-the-acknowledged-blksize";
+                    if int_of_string fb <> (min ws nb - 1) * rep + 1 then bad "window-differs-from-the-acknowledged-windowsize"
+                  | _ -> ())
+               end
+             | _ -> bad "undecodable-oack"
+           end else if starts_with h "0003" && starts_with r.sxfer "dl=" && ends_with r.sxfer "/done" then begin
+             (* RFC 1350 defaults *)
+             match String.split_on_char '/' (String.sub r.sxfer 3 (String.length r.sxfer - 3)) with
+             | [fpr; _; maxpay; fb; _; _; _] ->
+               let len = int_of_string (List.hd (String.split_on_char ':' fpr)) in
+               if int_of_string maxpay <> min 512 len then bad "default-block-length-is-not-512";
+               if int_of_string fb <> 1 then bad "default-transfer-is-not-lock-step"
+             | _ -> ()
+           end
+         | _ -> ()) recs
+     | "C16" ->
+       List.iter (fun r ->
+         if starts_with r.sxfer "dl=" && ends_with r.sxfer "/done" then
+           match String.split_on_char '/' (String.sub r.sxfer 3 (String.length r.sxfer - 3)) with
+           | [_; _; _; _; m; x; _] ->
+             if m <> string_of_int rep then bad "data-blocks-not-repeated-N+1-times";
+             if x <> "x0" then bad "handshake-packet-repeated"
+           | _ -> ()) recs
+     | _ -> ());
+    match !fail with [] -> (if List.mem prop ["C02"; "C03"; "C05"; "C06"; "C09"; "C14"; "C16"] then "pass" else "skip") | m :: _ -> "fail:" ^ m
+    end
+  | _ -> "fail:unparsable"
 
 (* ---- CFG ---- *)
 let untok t = if t = "_" then [] else bytes_of_hex t
@@ -624,6 +857,7 @@ let run_mon (line : string) : string =
      | _ -> (match words case with
              | "send" :: _ -> mon_send prop case impl
              | "recv" :: _ -> mon_recv prop case impl
+             | "srv" :: _ -> mon_srv prop case impl
              | "cfgperm" :: _ -> if prop = "C17" then (match mon_cfgperm impl with "pass" -> mon_cfg_dup case impl | v -> v)
                                  else if prop = "C16" then mon_cfg_dup case impl else "skip"
              | "cfg" :: _ -> if prop = "C17" || prop = "C16" then mon_cfg_dup case impl else "skip"
